@@ -656,7 +656,11 @@ pub fn install_observer(log: Rc<RefCell<AllocLog>>) {
             }
             dryoc::protected::verif::Event::Release { addr, size } => {
                 l.releases += 1;
-                l.live.remove(&addr);
+                // the block that goes back to the system allocator is the one that was handed
+                // out: if the container shrank it in place, the tail beyond the size it now
+                // reports is still part of the released allocation
+                let handed_out = l.live.remove(&addr).unwrap_or(0);
+                let size = size.max(handed_out);
                 match count_nonzero(addr, size) {
                     Ok(0) => {}
                     Ok(n) => l.dirty.push((addr, size, n, String::new())),
@@ -1061,6 +1065,123 @@ fn outcome_name(o: &Outcome) -> &'static str {
 }
 
 // ---------------------------------------------------------------------------------------
+// C19: every Result-returning locked constructor outside the explorer's alphabet
+
+type AnyBox = Box<dyn std::any::Any>;
+type CtorFn = fn() -> Result<AnyBox, String>;
+
+fn composite_ctors() -> Vec<(&'static str, CtorFn)> {
+    use dryoc::keypair::KeyPair;
+    use dryoc::precalc::PrecalcSecretKey;
+    use dryoc::sign::SigningKeyPair;
+    type LK = KeyPair<Locked<HeapByteArray<32>>, Locked<HeapByteArray<32>>>;
+    type LKRO = KeyPair<LockedRO<HeapByteArray<32>>, LockedRO<HeapByteArray<32>>>;
+    type LS = SigningKeyPair<Locked<HeapByteArray<32>>, Locked<HeapByteArray<64>>>;
+    type LSRO = SigningKeyPair<LockedRO<HeapByteArray<32>>, LockedRO<HeapByteArray<64>>>;
+    fn b<T: 'static>(r: Result<T, std::io::Error>) -> Result<AnyBox, String> {
+        r.map(|x| Box::new(x) as AnyBox).map_err(|e| e.to_string())
+    }
+    vec![
+        ("KeyPair::new_locked_keypair", || b(LK::new_locked_keypair())),
+        ("KeyPair::gen_locked_keypair", || b(LK::gen_locked_keypair())),
+        ("KeyPair::gen_readonly_locked_keypair", || b(LKRO::gen_readonly_locked_keypair())),
+        ("KeyPair::precalculate_locked", || {
+            let kp = LK::gen_locked_keypair().map_err(|e| e.to_string())?;
+            let r = kp.precalculate_locked(&[9u8; 32]).map_err(|e| e.to_string())?;
+            Ok(Box::new((kp, r)) as AnyBox)
+        }),
+        ("KeyPair::precalculate_readonly_locked", || {
+            let kp = LKRO::gen_readonly_locked_keypair().map_err(|e| e.to_string())?;
+            let r = kp.precalculate_readonly_locked(&[9u8; 32]).map_err(|e| e.to_string())?;
+            Ok(Box::new((kp, r)) as AnyBox)
+        }),
+        ("PrecalcSecretKey::precalculate_locked", || b(PrecalcSecretKey::precalculate_locked(&[9u8; 32], &[7u8; 32]))),
+        ("PrecalcSecretKey::precalculate_readonly_locked", || b(PrecalcSecretKey::precalculate_readonly_locked(&[9u8; 32], &[7u8; 32]))),
+        ("SigningKeyPair::new_locked_keypair", || b(LS::new_locked_keypair())),
+        ("SigningKeyPair::gen_locked_keypair", || b(LS::gen_locked_keypair())),
+        ("SigningKeyPair::gen_readonly_locked_keypair", || b(LSRO::gen_readonly_locked_keypair())),
+        ("StackByteArray::mlock", || b(StackByteArray::<32>::from(&[5u8; 32]).mlock())),
+        ("StackByteArray::mprotect_readonly+mlock", || {
+            let p = StackByteArray::<32>::from(&[5u8; 32]).mprotect_readonly().map_err(|e| e.to_string())?;
+            b(Lock::mlock(p))
+        }),
+        ("HeapByteArray::new_readonly_locked", || b(HeapByteArray::<64>::new_readonly_locked())),
+        ("HeapByteArray::gen_readonly_locked", || b(HeapByteArray::<64>::gen_readonly_locked())),
+        ("HeapBytes::from_slice_into_readonly_locked(4097)", || HeapBytes::from_slice_into_readonly_locked(&[3u8; 4097]).map(|x| Box::new(x) as AnyBox).map_err(|e| format!("{:?}", e))),
+        ("two regions: second lock refused", || {
+            let a = HeapBytes::from_slice_into_locked(&[1u8; 100]).map_err(|e| format!("{:?}", e))?;
+            let bb = HeapByteArray::<32>::gen_locked().map_err(|e| e.to_string())?;
+            Ok(Box::new((a, bb)) as AnyBox)
+        }),
+    ]
+}
+
+fn run_ctor_family() -> Value {
+    let mut outcomes: BTreeMap<String, u64> = BTreeMap::new();
+    let mut fails: Vec<Value> = vec![];
+    let mut executions = 0u64;
+    let base = vm_lck_kb();
+    for (name, f) in composite_ctors() {
+        let mut k = 0i64;
+        let mut calls_fault_free = 0u64;
+        loop {
+            executions += 1;
+            let log = Rc::new(RefCell::new(AllocLog::default()));
+            install_observer(log.clone());
+            arm_mlock(k);
+            let r = guarded(AssertUnwindSafe(f));
+            let calls = MLOCK_CALLS.load(Ordering::SeqCst);
+            let refused = MLOCK_REFUSED.load(Ordering::SeqCst);
+            let oc = match &r {
+                Err(_) => "panic",
+                Ok(Ok(_)) => "ok",
+                Ok(Err(_)) => "err",
+            };
+            *outcomes.entry(format!("ctor:{}{}", oc, if k == 0 { "(fault-free)" } else { "(lock refused)" })).or_insert(0) += 1;
+            let mut viols: Vec<(String, String)> = vec![];
+            if let Err(p) = &r {
+                viols.push(("panic".into(), format!("panicked instead of returning Err: {}", p)));
+            }
+            if k > 0 && refused > 0 && oc == "ok" {
+                viols.push(("refusal-swallowed".into(), "returned Ok although a lock request was refused".into()));
+            }
+            if k == 0 && oc != "ok" {
+                viols.push(("fault-free-failure".into(), format!("failed without any fault: {:?}", r.as_ref().map(|x| x.as_ref().map(|_| ()).map_err(|e| e.clone())))));
+            }
+            drop(r);
+            dryoc::protected::verif::set_alloc_observer(None);
+            arm_mlock(0);
+            let l = log.borrow();
+            let mut v: Vec<Viol> = vec![];
+            check_final(&l, base, &mut v);
+            for x in v {
+                viols.push((x.class, x.detail));
+            }
+            for (_, size, nz, note) in &l.dirty {
+                viols.push(("unwiped-release".into(), if note.is_empty() { format!("a {}-byte allocation was released with {} non-zero bytes", size, nz) } else { note.clone() }));
+            }
+            if l.allocs != l.releases {
+                viols.push(("alloc-balance".into(), format!("{} allocations, {} releases", l.allocs, l.releases)));
+            }
+            drop(l);
+            for (class, d) in viols {
+                *outcomes.entry(format!("VIOLATION:{}", class)).or_insert(0) += 1;
+                fails.push(json!({"signature": format!("C19/ctor/{}/{}", class, name), "what": format!("{} with mlock refused from call {}: {}", name, k, d), "case": {"bin": "mcn", "mode": "Ctor", "ctor": name, "fail_from": k}}));
+            }
+            if k == 0 {
+                calls_fault_free = calls;
+            }
+            k += 1;
+            if k as u64 > calls_fault_free + 1 {
+                break;
+            }
+        }
+    }
+    json!({"container": "composite constructors", "base_len": 0, "nodes": composite_ctors().len(), "transitions": executions, "executions": executions, "probes": 0, "canonical_states": 0,
+           "outcomes": outcomes, "fails": fails, "samples": [{"constructor": "KeyPair::gen_readonly_locked_keypair", "refusal_points": "k = 1..=(lock requests of the fault-free run)+1"}]})
+}
+
+// ---------------------------------------------------------------------------------------
 // worker process: one (mode, container, base length, depth) unit
 
 fn run_unit<A: PmCont>(mode: Mode, base_len: usize, depth: usize, probe_depth: usize, replay: Option<(Vec<Op>, i64)>) -> Value {
@@ -1139,6 +1260,10 @@ pub fn worker(args: &[String]) -> i32 {
     } else {
         None
     };
+    if cont == "ctors" {
+        println!("{}", run_ctor_family());
+        return 0;
+    }
     let out = if cont == "HeapBytes" {
         run_unit::<HeapBytes>(mode, len, depth, pd, replay)
     } else {
@@ -1273,8 +1398,9 @@ pub fn run_c15() -> i32 {
 pub fn run_c19() -> i32 {
     let mut ctx = Ctx::new("C19", "fault_enumeration");
     let depth = ctx.tier.pick(4usize, 5);
-    let units = units_for(&[0, 1, 32, PAGE + 1], &[1, 32, 4097]);
-    ctx.rule = format!("fault enumeration over environment answers: for every operation history of length <= {} (same alphabet as C14) and every k from 1 to (number of mlock requests of the fault-free run)+1, the history is re-executed with the k-th and all later mlock calls refused (ENOMEM, in-process interposer); Result-returning calls must return Err (never panic), surviving handles must satisfy the C14 kernel invariant after every step, and after dropping everything the C14 final condition and the C15 release condition must hold; non-trivial = every (history, k) execution", depth);
+    let mut units = units_for(&[0, 1, 32, PAGE + 1], &[1, 32, 4097]);
+    units.push(Unit { cont: "ctors".into(), len: 0 });
+    ctx.rule = format!("fault enumeration over environment answers: for every operation history of length <= {} (same alphabet as C14) and every k from 1 to (number of mlock requests of the fault-free run)+1, the history is re-executed with the k-th and all later mlock calls refused (ENOMEM, in-process interposer); Result-returning calls must return Err (never panic), surviving handles must satisfy the C14 kernel invariant after every step, and after dropping everything the C14 final condition and the C15 release condition must hold; plus 16 composite Result-returning constructors (KeyPair / SigningKeyPair / PrecalcSecretKey locked constructors, StackByteArray::mlock, read-only locked constructors, two-region sequences) x every k; non-trivial = every (history, k) execution", depth);
     ctx.assume("only mlock is refused; mprotect and allocation failures are not injected");
     let res = spawn_units("fault", &units, depth, 0);
     absorb_units(&mut ctx, "C19", res, &units);
@@ -1284,6 +1410,15 @@ pub fn run_c19() -> i32 {
 
 pub fn replay(case: &Value) -> Option<String> {
     let exe = std::env::current_exe().unwrap();
+    if case["mode"] == "Ctor" {
+        let out = std::process::Command::new(&exe).args(["pmworker", "fault", "ctors", "0", "0", "0"]).output().ok()?;
+        let text = String::from_utf8_lossy(&out.stdout);
+        let line = text.lines().rev().find(|l| l.starts_with('{'))?;
+        let v: Value = serde_json::from_str(line).ok()?;
+        let want = case["ctor"].as_str().unwrap_or("");
+        let hits: Vec<String> = v["fails"].as_array().cloned().unwrap_or_default().iter().filter(|f| f["case"]["ctor"] == want).map(|f| f["signature"].as_str().unwrap_or("").to_string()).collect();
+        return if hits.is_empty() { None } else { Some(hits.join(", ")) };
+    }
     let mode = match case["mode"].as_str().unwrap_or("Kernel") {
         "Kernel" => "kernel",
         "Release" => "release",
